@@ -208,7 +208,8 @@ def generate(rng, tier, index):
                 ops[-1]["tee"] = [x for x in open_actors if x != a][: rng.choice([1, 2])]
             if rng.random() < 0.08:
                 # a write refused inside pack(): a holder whose nested value cannot be packed; the caller goes on
-                ops.append({"op": "write_bad", "actor": a, "desc": rng.choice(holders)})
+                # ... or a record of a coinciding-identifier type whose list value cannot be packed
+                ops.append({"op": "write_bad", "actor": a, "desc": rng.choice(holders + ["B0", "B0"])})
         elif r < 0.82:
             ops.append({"op": "flush", "actor": a})
         elif r < 0.92:
@@ -582,7 +583,7 @@ def execute(plan, keep_log=False):
                 name, fields = pj[op["desc"]]
                 vals = []
                 for typ, _ in fields:
-                    vals.append({1, 2} if typ == "record" else ([{3}] if typ == "record[]" else ("bad" if typ == "string" else 1)))
+                    vals.append({1, 2} if typ == "record" else ([{3}] if typ in ("record[]", "stringlist") else ("bad" if typ == "string" else 1)))
                 try:
                     rec = d(*vals)
                     a.writer.write(rec)
